@@ -411,8 +411,7 @@ def main(chk: Check) -> None:
         chk.broken("translator", "C13/Gen.v", str(e))
     chk.forbidden_scan()
     if chk.coq_make(["C13/Proofs.vo", "C13/Extract.vo"]):
-        if chk.audit_props("C13/Props.v") and chk.tier == "thorough":
-            chk.coqchk(["Wz.C13.Props"])
+        chk.audit_props("C13/Props.v")
     else:
         chk.cov["obligations"] += 1
     chk.trusted += [
